@@ -108,7 +108,7 @@ CHECKS.update({
         note=GEN_NOTE + "; allocation measured with runtime.ReadMemStats", ref="7 (C08)"),
     "C16": dict(
         technique="TLA+ spec (Generator: documented naming, GenOK) + TLC model checking of the naming function (MCGenerator, non-injectivity kept as expected violation) + TLC judging one recorded plug-in run per corpus file x flavour x option set",
-        text="exhaustive over the corpus product (90 schema files x {gogo, google-v2} x 3 option sets): the plug-in must succeed twice (different cwd, GOMAXPROCS, TZ) with byte-identical "
+        text="exhaustive over the corpus product (60 schema files x {gogo, google-v2, legacy google-v1 where it applies} x 3 option sets = 355 plug-in requests): the plug-in must succeed twice (different cwd, GOMAXPROCS, TZ) with byte-identical "
              "output, emit each documented name exactly once, emit the same bytes for a file when it is the second file of a two-file request (Generator!Compositional; GenLoop.tla models "
              "the per-file loop of the plug-in process and keeps 'parse the templates once' as an expected violation), and the output must parse (go/parser) and compile with the runtime's own generated types (go build).",
         note="trusted: TLC, go/parser and go build as sensors for 'valid Go that compiles'; the runtime generators (protoc-gen-go, protoc-gen-gogo) driven without protoc through the plug-in protocol",
